@@ -110,8 +110,41 @@ def field_accesses(fn: Func, fields: set[str]) -> list[tuple[ast.Attribute, str]
     return out
 
 
+def held_on_entry(ctx: Ctx, cls: Cls, lock_field: str) -> set[int]:
+    """Private methods that are only ever called (on the same object) while the lock is held: every call site lies inside a
+    region on the lock, or inside another such method.  Least fixpoint from the lexical regions."""
+    held: set[int] = set()
+    sites: dict[int, list[tuple[Func, ast.AST]]] = {}
+    for f in cls.all_defs:
+        if isinstance(f.node, ast.Lambda):
+            continue
+        for call_node, g in self_callees(ctx, f, f.node):
+            sites.setdefault(id(g), []).append((f, call_node))
+    changed = True
+    while changed:
+        changed = False
+        for g in cls.all_defs:
+            if id(g) in held or not g.name.startswith("_") or g.name.startswith("__") and g.name.endswith("__"):
+                continue
+            ss = sites.get(id(g), [])
+            if not ss:
+                continue
+            ok = True
+            for f, node in ss:
+                regs = [r for r in lock_regions(f) if r.lock.split(".")[-1] == lock_field]
+                if not (any(inside(node, r.node) for r in regs) or id(f) in held):
+                    ok = False
+                    break
+            if ok:
+                held.add(id(g))
+                changed = True
+    return held
+
+
 def check_lockset(ctx: Ctx, cls: Cls, lock_field: str, guarded: set[str], rr: RuleResult, ctor_names: tuple[str, ...] = ("__init__", "_ctor", "__new__")) -> None:
-    """Every access to a guarded field outside constructors happens inside a `with self.<lock_field>` region."""
+    """Every access to a guarded field outside constructors happens inside a `with self.<lock_field>` region, or in a
+    private helper that is only called with the lock held."""
+    held = held_on_entry(ctx, cls, lock_field)
     for f in cls.all_defs:
         if f.name in ctor_names:
             continue
@@ -120,6 +153,8 @@ def check_lockset(ctx: Ctx, cls: Cls, lock_field: str, guarded: set[str], rr: Ru
             rr.inst()
             if any(inside(node, r.node) for r in regs):
                 rr.ok()
+            elif id(f) in held:
+                rr.ok({"fn": f.qual, "field": fld, "lock": "held by every caller"})
             else:
                 rr.fail(f.qual, f"accesses guarded field {fld} outside `with {lock_field}`", ctx.loc(f, node))
 
